@@ -164,6 +164,44 @@ func runC11(c *Ctx) {
 		gbStores = append(gbStores, st)
 	}
 	auths := callsIn(f, "(rt.ClientAuthInfoWriter).AuthenticateRequest")
+	// every form value and every file given to the request is sent: nothing in the client removes an entry of the form
+	// or file tables once a setter has recorded it (a later setter of the same name adds beside it)
+	for _, fn := range p.LibFuncs("rt/client") {
+		for _, ci := range allCalls(fn) {
+			if ci.Parent() != fn {
+				continue
+			}
+			name := calleeName(ci.Common())
+			var tbl ssa.Value
+			switch name {
+			case "(net/url.Values).Del":
+				tbl, _ = callArgs(ci.Common())
+			case "builtin delete":
+				tbl = ci.Common().Args[0]
+			default:
+				continue
+			}
+			if ct, isCT := tbl.(*ssa.ChangeType); isCT {
+				tbl = ct.X
+			}
+			for _, fld := range []string{"formFields", "fileFields"} {
+				if vFieldLoad(clientReqT, fld, nil)(tbl) || vFieldLoadO(clientReqT, fld)(tbl) {
+					c.obD("R11.4", ci, "recorded-fields-never-removed", false, "no form value or file recorded on the request is removed again: the document sent contains every one of them", short(fn.String())+" deletes an entry of request."+fld)
+				}
+			}
+		}
+	}
+	// the accessor the auth writer calls hands on what the installed getBody function returns — for every method, media
+	// type and body kind (no shortcut answers before or instead of it)
+	if acc := p.FnOpt("(*rt/client.request).GetBody"); acc != nil {
+		for _, r := range returnsOf(acc) {
+			okG, bad := allOrigins(resOf(r, 0), func(o Origin) bool {
+				call := asCall(o.V)
+				return call != nil && !call.Call.IsInvoke() && (vFieldLoad(clientReqT, "getBody", nil)(call.Call.Value) || vFieldLoadO(clientReqT, "getBody")(call.Call.Value))
+			})
+			c.obI("R11.2", r, "accessor-asks-the-installed-function", okG, "request.GetBody returns what the request's getBody function (the buffer reader, or the buffering override buildHTTP installs) returns, on every path", "origin "+describeOrigin(bad)+": the auth writer is shown bytes other than the ones sent")
+		}
+	}
 	c.obRF("R11.2", f, "override-and-auth", len(gbStores) == 1 && len(auths) == 1, "buildHTTP installs a GetBody override before calling the auth writer", fmt.Sprintf("%d stores, %d auth calls", len(gbStores), len(auths)))
 	if len(gbStores) == 1 && len(auths) == 1 {
 		st, au := gbStores[0], auths[0]
@@ -704,6 +742,24 @@ func runC11(c *Ctx) {
 		for _, d := range callsIn(g, "net/http.DetectContentType") {
 			c.obI("R11.4", d, "declared-type-wins", okv != nil && guardedBy(d, ta, factBool(vIs(okv), false)), "a declared ContentType() takes precedence over sniffing", "")
 		}
+	}
+	// the part's Content-Type is one of exactly two things: what the file declares, or what its content sniffs as
+	// (never the file name's extension, a default, the request's media type …)
+	{
+		nCT := 0
+		for _, ci := range callsIn(g, "(net/textproto.MIMEHeader).Set") {
+			_, a := callArgs(ci.Common())
+			if k, ok := constString(a[0]); !ok || !strings.EqualFold(k, "Content-Type") {
+				continue
+			}
+			nCT++
+			okT, bad := allOrigins(a[1], oCall(-1, "net/http.DetectContentType"), func(o Origin) bool {
+				call := asCall(o.V)
+				return call != nil && ifaceMethodCalled(&call.Call) == "ContentType"
+			})
+			c.obI("R11.4", ci, "part-type-declared-or-sniffed", okT, "a file part's Content-Type is the type the file declares or else the type sniffed from its content — nothing else", "origin "+describeOrigin(bad))
+		}
+		c.obRF("R11.4", g, "part-gets-a-content-type", nCT >= 1, "each file part is given a Content-Type", "")
 	}
 	eq := p.Fn("rt/client.escapeQuotes")
 	for _, r := range returnsOf(eq) {
